@@ -145,14 +145,23 @@ def real_case(case):
         shutil.rmtree(d, ignore_errors=True)
 
 
+def guarded(fn, case):
+    try:
+        return common.with_timeout(fn, 60, case)
+    except common.Hang:
+        return "[hang] the run did not return (a command reading its stdin to EOF must terminate)"
+    except Exception as e:
+        return "[unexpected-exception] %r" % e
+
+
 def replay(case):
     k = case.get("kind")
     if k == "stream":
-        why = stream_case(case)
+        why = guarded(stream_case, case)
     elif k == "disabled":
-        why = disabled_case(case)
+        why = guarded(disabled_case, case)
     elif k == "real":
-        why = real_case(case)
+        why = guarded(real_case, case)
     elif "sched" in case:
         o = runnerio.run_impl(case)
         why = oracle_gated(case, o, runnerio.impl_obs(case, o))
